@@ -502,6 +502,13 @@ def refPollData (s : Streams) (id : Nat) (tag : String) : Streams × PollData :=
     (if budgeted then s.modCounts fun c => c.releaseDataFrame payload.length else s, .data payload budgeted)
   | r => r
 
+/-- `OpaqueStreamRef::poll_pushed(cx)`: a promised stream comes with a new handle on it
+    (`me.refs += 1; OpaqueStreamRef::new(.., &mut store.resolve(key))`) -/
+def refPollPushed (s : Streams) (id : Nat) (tag : String) : Streams × PollPushed :=
+  match s.recvPollPushed id tag with
+  | (s, .pushed child m u f) => (s.cloneStreamRef child, .pushed child m u f)
+  | r => r
+
 /-- `OpaqueStreamRef::release_capacity(capacity)` -/
 def refReleaseCapacity (s : Streams) (id : Nat) (capacity : Nat) : Streams × Except UserError Unit :=
   s.releaseCapacity id capacity true
